@@ -81,7 +81,6 @@ Inductive effect :=
 | ERemoveLocal (n : bytes) | ECreateLocal (n : bytes)
 | ELock (n : bytes) | EUnlock (n : bytes) | EStatUpload (n : bytes) | EWriteUpload (n : bytes)
 | EPost (fdate : bytes) (name : bytes)
-| EPanic
 | ECounterFile            (* counter package: weekends file + create/map the count file *)
 | ECounterAdd.            (* counter package: store into the mapped count file *)
 
@@ -121,7 +120,8 @@ Definition group_of (start : Z) (cnt : list lfile) (wk : bytes) : group :=
 Definition groups_of (start : Z) (cnt : list lfile) : list group :=
   map (group_of start cnt) (weeks_of start cnt).
 
-(* notNeeded(date, todo) *)
+(* notNeeded(date, todo): uploaded[date.json], or a ready report whose base
+   name contains the date (fix db874db: base name, not the full path) *)
 Definition not_needed (date : bytes) (uploaded : option (list bytes)) (ready : list bytes) : bool :=
   match uploaded with Some u => names_has u (date ++ json_suffix) | None => false end
   || existsb (fun r => contains r date) ready.
@@ -234,40 +234,40 @@ Definition reports (mode : bytes) (asof : option Z) (cfg : runcfg) (d : dirs) (w
         (r, EReadMode :: e, {| d_local := Some l'; d_upload := d_upload d |})
     end.
 
-(* uploadReport + uploadReportContents for one ready name.
-   Result: panicked?, effects, new state *)
+(* uploadReport + uploadReportContents for one ready name: effects, new state.
+   A name too short to hold a date is skipped (fix 8d04c54; it used to panic). *)
 Definition upload_one (cfg : runcfg) (today : bytes) (name : bytes) (d : dirs)
-  : bool * list effect * dirs :=
-  if future_report today name then (false, [], d)
+  : list effect * dirs :=
+  if future_report today name then ([], d)
   else
     match d_local d with
-    | None => (false, [EReadLocal name], d)
+    | None => ([EReadLocal name], d)
     | Some l =>
-        if negb (local_has l name) then (false, [EReadLocal name], d)
+        if negb (local_has l name) then ([EReadLocal name], d)
         else
           let base := trim_suffix name json_suffix in
-          if (length base <? 10)%nat then (true, [EReadLocal name; EPanic], d)
+          if (length base <? 10)%nat then ([EReadLocal name], d)
           else
             let fdate := last_n 10 base in
             let newname := fdate ++ json_suffix in
             let lockname := newname ++ lock_suffix in
             match d_upload d with
-            | None => (false, [EReadLocal name], d)
+            | None => ([EReadLocal name], d)
             | Some u =>
-                if names_has u lockname then (false, [EReadLocal name], d)
+                if names_has u lockname then ([EReadLocal name], d)
                 else if names_has u newname then
-                  (false, [EReadLocal name; ELock lockname; EStatUpload newname; ERemoveLocal name; EUnlock lockname],
+                  ([EReadLocal name; ELock lockname; EStatUpload newname; ERemoveLocal name; EUnlock lockname],
                    {| d_local := Some (local_remove l name); d_upload := Some u |})
                 else
                   let status := rc_resp cfg fdate in
                   let pre := [EReadLocal name; ELock lockname; EStatUpload newname; EPost fdate name] in
                   if status =? 200 then
-                    (false, pre ++ [EWriteUpload newname; ERemoveLocal name; EUnlock lockname],
+                    (pre ++ [EWriteUpload newname; ERemoveLocal name; EUnlock lockname],
                      {| d_local := Some (local_remove l name); d_upload := Some (u ++ [newname]) |})
                   else if (400 <=? status) && (status <? 500) then
-                    (false, pre ++ [ERemoveLocal name; EUnlock lockname],
+                    (pre ++ [ERemoveLocal name; EUnlock lockname],
                      {| d_local := Some (local_remove l name); d_upload := Some u |})
-                  else (false, pre ++ [EUnlock lockname], d)
+                  else (pre ++ [EUnlock lockname], d)
             end
     end.
 
@@ -276,9 +276,8 @@ Fixpoint upload_all (cfg : runcfg) (today : bytes) (ready : list bytes) (d : dir
   match ready with
   | [] => ([], d)
   | r :: rest =>
-      let '(panicked, e, d') := upload_one cfg today r d in
-      if panicked then (e, d')
-      else let '(e2, d2) := upload_all cfg today rest d' in (e ++ e2, d2)
+      let '(e, d') := upload_one cfg today r d in
+      let '(e2, d2) := upload_all cfg today rest d' in (e ++ e2, d2)
   end.
 
 (* the list of reports handed to the upload loop *)
